@@ -91,6 +91,7 @@ template<class EigenVectorType>
 void RingOfEigenVector<EigenVectorType>::clear()
 {
   ring_.clear();
+  ringIndex_ = -1;
 }
 
 //-----------------------------------------------------------------------------
@@ -104,7 +105,7 @@ size_t RingOfEigenVector<EigenVectorType>::size()const
 template<class EigenVectorType>
 const EigenVectorType & RingOfEigenVector<EigenVectorType>::operator[](size_t n) const
 {
-  return ring_[(ringIndex_ - n) % ring_.size()];
+  return ring_[(ringIndex_ + ring_.size() - n) % ring_.size()];
 }
 
 
